@@ -22,7 +22,21 @@ def find_skippers(prog):
             cur = out.get('async_default')
             if cur is None or len(b.bbs) > len(cur.bbs):
                 out['async_default'] = b
+    out = {k: _read_through(v) for k, v in out.items()}
     return out
+
+
+_RT = {}
+
+
+def _read_through(b):
+    """skipper body with its private helpers (non-public functions of pilota::thrift, e.g. a shared `skip_bytes`, or the
+    count-down of the pending-container stack turned from a macro into a function) spliced in"""
+    if b is None:
+        return None
+    if b.id not in _RT:
+        _RT[b.id] = mirlib.inline_calls(b, lambda cs, callee: callee.vis != 'Public' and callee.crate == 'pilota' and (callee.key.startswith('thrift::') or callee.key.startswith('<thrift::')) and callee.name != 'skip_till_depth' and not callee.impl_trait)
+    return _RT[b.id]
 
 
 def recursive_calls(b):
@@ -111,6 +125,62 @@ CONSUMING = re.compile(r'::(advance|read_[a-z0-9_]+|skip_till_depth|skip|split_t
 ZERO_WIDTH = re.compile(r'::read_(struct_begin|struct_end|field_end|list_end|set_end|map_end|message_end)$')
 
 
+def feasible_succs(b, bi, errl=None):
+    """successors of a block, without the Continue edge of `?` applied to a literal Err (`return Err(e)?`, the expansion
+    of assert_remaining!) or to the local `errl`, which on this path holds a propagated residual: that edge cannot be taken"""
+    t = b.bbs[bi]['t']
+    out = b.succs(bi)
+    if t['k'] == 'switch':
+        c = b.expr_op(t['o'])
+        if c[0] == 'discr' and c[1][0] == 'call' and c[1][1].endswith('::branch') and c[1][2]:
+            x = c[1][2][0]
+            while x and x[0] in ('ref', 'deref'):
+                x = x[1]
+            if x and ((x[0] == 'agg' and x[1].endswith('Result::Err')) or (errl and x[0] == 'local' and x[1] in errl)):
+                dead = {tb for v, tb in t['vals'] if int(v) == 0}
+                out = [y for y in out if y not in dead]
+    return out
+
+
+def _err_local_after(b, bi, errl):
+    """which locals are known to hold an Err at the end of block bi: the destination of a `from_residual` call (an inlined
+    helper's `?`) and what it was moved to"""
+    errl = set(errl or ())
+    for st in b.bbs[bi]['st']:
+        p, r = st.get('p'), st.get('r', {})
+        if not p or p.get('p'):
+            continue
+        src = ((r.get('o') or {}).get('mv') or (r.get('o') or {}).get('cp')) if r.get('k') == 'use' else None
+        if src and src['l'] in errl and not src['p']:
+            errl.add(p['l'])
+        else:
+            errl.discard(p['l'])
+    t = b.bbs[bi]['t']
+    if t['k'] == 'call' and not t['dest']['p']:
+        f = t['f'].get('c', {}).get('fn', {})
+        if f.get('name') == 'from_residual':
+            errl = {t['dest']['l']}
+        else:
+            errl.discard(t['dest']['l'])
+    return frozenset(errl) or None
+
+
+def free_reach(b, stop):
+    """blocks reachable from the entry without passing a block in `stop`, following only feasible `?` edges"""
+    seen = {(0, None)}
+    st = [(0, None)]
+    while st:
+        x, e = st.pop()
+        if x in stop:
+            continue
+        e2 = _err_local_after(b, x, e)
+        for s in feasible_succs(b, x, e2):
+            if (s, e2) not in seen:
+                seen.add((s, e2))
+                st.append((s, e2))
+    return {x for x, _ in seen}
+
+
 def progress(rep, rule, prog):
     """every way through a recursive skipper to an Ok result passes a call that consumes input
     (otherwise a wire-supplied element count drives a loop that never ends)"""
@@ -149,16 +219,7 @@ def progress(rep, rule, prog):
                     continue
                 # the value returned is the callee's result: the call itself may be the consuming one
                 oks.append(('call', bi))
-        seen = {0}
-        st = [0]
-        while st:
-            x = st.pop()
-            if x in consuming:
-                continue
-            for s in succ[x]:
-                if s not in seen:
-                    seen.add(s)
-                    st.append(s)
+        seen = free_reach(b, consuming)
         key = '%s|%s' % (rule, name)
         if not oks:
             rep.anchor_missing(rule, 'Ok result in ' + name)
